@@ -22,7 +22,7 @@ from . import boot, invariants, struct
 from .ops import exec_op
 from .queries import battery, first_difference
 from .struct import Result, Violation, apply_op, expect_of, gen_op, stable_hash
-from .world import ACTIVE, CLASSES, FAMILY, Watchdog, World
+from .world import ACTIVE, CLASSES, FAMILY, OpGuard, Watchdog, World
 
 KNOWN_OPEN = set()
 
@@ -293,9 +293,19 @@ def run(cfg, ops=None, rng=None):
                 snap = wa.snapshot()
                 ACTIVE[0] = None
                 full = prop == "C17"  # C18 names navigation, iterators, Walker, Resolver, RenderTree only
-                ra = battery(wa, snap, op["qseed"], heavy=op.get("heavy", True), exporters=full, helpers=full, part=op.get("part"))
+                budget = 4.0 + 0.05 * len(wa.nodes)
+                try:
+                    with OpGuard(budget, 700):
+                        ra = battery(wa, snap, op["qseed"], heavy=op.get("heavy", True), exporters=full, helpers=full, part=op.get("part"))
+                except Watchdog as wd:
+                    raise Violation("GUARD", "hang", step, "hang:query", str(wd))
                 _probe_violation(prop, step, op, "plain universe")
-                rb = battery(wb, snap, op["qseed"], heavy=op.get("heavy", True), exporters=full, helpers=full, part=op.get("part"))
+                try:
+                    with OpGuard(budget, 700):
+                        rb = battery(wb, snap, op["qseed"], heavy=op.get("heavy", True), exporters=full, helpers=full, part=op.get("part"))
+                except Watchdog as wd:
+                    _probe_violation(prop, step, op, "query battery")
+                    raise Violation(prop, "query", step, "query:hang", "step %d: a query that returns in the first universe does not terminate in the second (%s)" % (step, wd))
                 _probe_violation(prop, step, op, "query battery")
                 res.bump("batteries")
                 res.bump("queries", len(ra))
